@@ -96,9 +96,17 @@ CHECKS = [
         "asyncio.create_task / done-callback behaviour assumed (callback exactly once after completion); two disjoint groups; "
         "scripted component manager; liveness reduced to safety + 'every distribution task finishes'; requests compared by content",
         "contract-based deductive verification of atomic steps with class invariant and ghost state (z3)", "DESIGN.md 3 (C14)"),
+    chk("C15", "proof",
+        "Deductive proof, for every assignment of an outcome (success / out-of-range / client error / unexpected exception / no reply "
+        "before the timeout) to every set_power call, that battery and PV results satisfy succeeded + failed + excess = requested, "
+        "with disjoint exhaustive component sets, failed power = sum of failed set-points, one API call per set-point with exactly "
+        "that power. Found and repaired a genuine defect in the PV manager (fix: commit in /repo).",
+        "asyncio task model (create_task/wait(timeout)/cancel/gather) assumed; API client, connection manager, status tracker, "
+        "results sender are scripted collaborators; structural bound: two inverters per pool; floats as reals",
+        "contract-based deductive verification with a task/exception-outcome model (z3)", "DESIGN.md 3 (C15)"),
 ]
 
 _PENDING = "check under construction in this session (contracts not yet written); will be claimed once its obligations discharge"
 NOT_APPLICABLE = [
     {"property_id": "C12", "reason": "formula generators are graph algorithms over networkx.DiGraph (recursive dfs, successor-set classification); no contract within reach of the VC generator expresses 'the generated formula balances for every valid graph' (DESIGN.md 4)"},
-] + [{"property_id": f"C{n:02d}", "reason": _PENDING} for n in (1, 2, 5, 6, 9, 10, 15, 19, 20)]
+] + [{"property_id": f"C{n:02d}", "reason": _PENDING} for n in (1, 2, 5, 6, 9, 10, 19, 20)]
